@@ -69,7 +69,7 @@ CHECKS = {
  "C04": ("same CPR spec; TLC checks Local(Encode(p), ref) within one bin and independent of the reference over nine offsets up to the "
          "half-zone edge, both parities, airborne and surface; dump replayed into *_position_with_ref and validated by TLC",
          "C03 position set x parity x {air, surface} x 9 (quick: 4) reference offsets incl. corners and across equator / lon 0 / antimeridian.",
-         "References lie on the 360/2^20-degree grid and stay >= 0.01 deg inside the half-zone box (the statement says 'closer than').",
+         "Grid references lie on the 360/2^20-degree grid and stay >= 0.01 deg inside the half-zone box (the statement says 'closer than'); off-grid references (zone boundaries k*span/ni, whole degrees) are judged by bracketing between the two grid neighbours where these agree.",
          "DESIGN.md section 5 C04"),
  "C05": ("same CPR spec with the surface (90-degree) encoding and a receiver location; TLC checks GlobalSurf over receivers up to ~40 NM "
          "away incl. the far side of the equator / Greenwich / antimeridian; dump replayed into position()/surface_position() and "
@@ -110,13 +110,13 @@ CHECKS = {
          "DESIGN.md section 5 C14"),
  "C16": ("TLA+ spec of the Beast/raw/Skysense wire formats with frame positions and the two framing bounds; TLC model-checks a "
          "reference incremental framer over EVERY segmentation of streams with special bytes at every position (state machine "
-         "StreamSM: invariant FramingHolds, Complete, action property AppendOnly); the same streams are cut every way into the real "
+         "StreamSM with actions Arrive(n) and Idle: invariants FramingHolds, Complete, action properties AppendOnly, IdleNoOp); the same streams are cut every way into the real "
          "TcpClient/NetSource and each run is validated step by step by TLC (Trace_Stream); the whole receive path (framing -> "
          "NetSource -> Decode, wired together under a virtual clock) is validated against the composed model Trace_Link",
          "Spec level: all segmentations (every chunk size at every position) of 180 (quick) to 1300+ streams. Code level: every single "
          "cut, pairs of cuts (quick: seeded subset), 1-byte pieces, seeded multi-cuts; seeded random streams with 12 % 0x1A density; "
-         "NetSource batches.",
-         "No sockets: chunks are appended to TcpClient.buffer and read_*_buffer() is called directly (as run() does); timestamps ignored.",
+         "NetSource batches incl. long one-sided stretches; the same deliveries through the real TcpClient.run() loop with receive time-outs at the cuts.",
+         "No real sockets: chunks are appended to TcpClient.buffer and read_*_buffer() is called directly, or TcpClient.run() is driven on a scripted socket object (one piece or one zmq.error.Again per recv); timestamps ignored.",
          "DESIGN.md section 5 C16, Appendix B"),
  "C18": ("TLA+ spec of the uplink formats: AP formed by polynomial multiplication (top 24 bits of A*G) XOR parity, address recovered by "
          "polynomial division (independent formulations, TLC checks they invert each other), field layouts of UF4/5/20/21 and UF11; "
